@@ -55,13 +55,51 @@ def units():
   ASSERT(second_observer_independently_sees_it_once, obr_wasNotified(&o2));
   ASSERT(second_observer_only_once, !obr_wasNotified(&o2));
 """, uses=["obs_notify", "obr_wasNotified"])
-    return [U]
+    return [U, registry_unit()]
+
+
+def registry_unit():
+    """the observer registry, BOUNDED exact (at most 3 registered observers; bounded std::vector code model)"""
+    RN = 3
+    helpers = """
+Observer *g_reg[%(n)d]; unsigned long g_rn;      /* ghost: the registered observers on entry, in registration order */
+Observable the_obs;                              /* the observable of the ~Observer harness */
+static _Bool reg_same(Observable *o) { unsigned long k; if (o->observers.n != g_rn) return 0; for (k = 0; k < g_rn && k < %(n)d; k++) if (o->observers.b[k] != g_reg[k]) return 0; return 1; }
+/* exactly the other observers remain, in registration order */
+static _Bool reg_without(Observable *o, Observer *x) { unsigned long k, j = 0; for (k = 0; k < g_rn && k < %(n)d; k++) { if (g_reg[k] == x) continue; if (j >= o->observers.n || o->observers.b[j] != g_reg[k]) return 0; j++; } return j == o->observers.n; }
+static _Bool reg_prefix(Observable *o) { unsigned long k; if (o->observers.n < g_rn) return 0; for (k = 0; k < g_rn && k < %(n)d; k++) if (o->observers.b[k] != g_reg[k]) return 0; return 1; }
+static _Bool reg_all_detached(void) { unsigned long k; for (k = 0; k < g_rn && k < %(n)d; k++) if (g_reg[k]->observee != 0) return 0; return 1; }
+""" % dict(n=RN)
+    R = Unit("c19_registry", "units/c19_registry.cpp", helpers=helpers, opts=dict(tracked_vec=True, bounded_vec=RN + 1, count_atomic_ops=False))
+    def pre(o):
+        t = "  static Observer the_o0, the_o1, the_o2; static Observer *const the_os[3] = {&the_o0, &the_o1, &the_o2};\n"
+        t += "  unsigned long in_rn = nondet_ulong(); __CPROVER_assume(in_rn <= %d); %s.observers.n = in_rn; %s.observers.cap = %d; g_rn = in_rn;\n" % (RN, o, o, RN + 1)
+        for k in range(RN):
+            t += "  %s.observers.b[%d] = the_os[%d]; g_reg[%d] = the_os[%d]; the_os[%d]->observee = &%s;\n" % (o, k, k, k, k, k, o)
+        return t
+    REQ = ["g_rn <= %d && reg_same($0)" % RN, "__verif_exc == 0"] + ["__CPROVER_rw_ok(g_reg[%d], sizeof(Observer))" % k for k in range(RN)] + ["g_reg[0] != g_reg[1] && g_reg[0] != g_reg[2] && g_reg[1] != g_reg[2]"]
+    acc = dict(unwind=RN + 4, timeout=600, solver=["--sat-solver", "cadical"], noalias=True)
+    member = "  unsigned long in_which = nondet_ulong(); __CPROVER_assume(in_which < 3); p_@1 = the_os[in_which];\n"
+    R.fn("obs_register", pre_call=pre("o_@0") + "  __CPROVER_assume(in_rn < %d);\n" % RN, requires=REQ + ["g_rn < %d" % RN, "$1 != g_reg[0] && $1 != g_reg[1] && $1 != g_reg[2]"], assigns=["$0->observers", "__verif_exc"], ensures={
+        "register_appends_the_observer_and_keeps_the_others_in_order": "__verif_exc == 0 && $0->observers.n == g_rn + 1 && $0->observers.b[g_rn < %d ? g_rn : 0] == $1 && reg_prefix($0)" % (RN + 1)}, **acc)
+    R.fn("obs_remove", pre_call=pre("o_@0") + member, requires=REQ, assigns=["$0->observers", "__verif_exc"], ensures={
+        "remove_drops_exactly_that_observer_and_keeps_the_others_in_order": "__verif_exc == 0 && reg_without($0, $1)"}, **acc)
+    R.fn("obs_dtor", pre_call=pre("o_@0"), requires=REQ, assigns=["g_reg[0]->observee", "g_reg[1]->observee", "g_reg[2]->observee", "__verif_exc"], ensures={
+        "a_dying_observable_detaches_every_registered_observer": "__verif_exc == 0 && reg_all_detached()"}, **acc)
+    # ~Observer: removes itself from a live observable, does nothing when already detached
+    dpre = pre("the_obs") + "  unsigned long in_which = nondet_ulong(); __CPROVER_assume(in_which < 3); p_@0 = the_os[in_which]; _Bool in_detached = nondet__Bool(); if (in_detached || in_which >= in_rn) p_@0->observee = 0;\n"
+    DREQ = [r.replace("$0", "(&the_obs)") for r in REQ]
+    R.fn("obr_dtor", pre_call=dpre, requires=DREQ + ["$0->observee == 0 || $0->observee == &the_obs", "IMP($0->observee == 0, $0 != g_reg[0] || g_rn < 1) || 1"], assigns=["the_obs.observers", "__verif_exc"], inline=["obs_remove"], ptr_requires=False, ensures={
+        "a_dying_observer_leaves_its_observable_registry_without_itself": "__verif_exc == 0 && IMP(__CPROVER_old($0->observee) != 0, reg_without(&the_obs, $0))",
+        "a_detached_observer_touches_nothing": "IMP(__CPROVER_old($0->observee) == 0, reg_same(&the_obs))"}, **dict(acc, noalias=False))
+    return R
 
 
 META = dict(
     level="proof",
     level_text="TimeStamp creation/renewal is proved to take exactly one value from the global counter through one atomic read-modify-write, so every fresh or renewed stamp is >= every value handed out before and < the counter (distinct and increasing); copies carry their source's value. notifyObservers/wasNotified are proved against property-level contracts over the stamp invariant (every stamp < counter): wasNotified returns true exactly when the observable notified since the previous poll, reports it only once, false for an orphaned observer, and preserves the invariant; a history lemma (notify/poll sequences over two observers) is proved from those contracts only.",
-    level_note="Single-thread semantics of std::atomic + one-RMW discipline; the observer registry (std::vector<Observer*>: register/remove, both destruction orders, nothing dangles) is NOT under contract -- the vector model does not track element values.",
-    assumptions=["std::atomic sequential model", "counter below 10^12 (no wrap-around of size_t)"],
-    unverified=["observer registry consistency and destruction orders", "inter-thread ordering of wasNotified against a concurrent notify"],
+    level_note="Single-thread semantics of std::atomic + one-RMW discipline; the observer registry is checked by BOUNDED exact contracts (unit c19_registry, at most 3 observers, bounded std::vector code model, std::remove / std::find reference models): registerObserver appends, removeObserver drops exactly that observer and keeps the others in order, ~Observable detaches every registered observer, ~Observer removes itself from a live observable and touches nothing when already detached -- together: nothing dangles in either destruction order.",
+    bounded=["observer registry (unit c19_registry): at most 3 registered observers, unwind 7"],
+    assumptions=["std::atomic sequential model", "bounded std::vector code model; std::remove / std::find reference models", "counter below 10^12 (no wrap-around of size_t)"],
+    unverified=["inter-thread ordering of wasNotified against a concurrent notify"],
 )
